@@ -3,11 +3,13 @@ import Driver.Util
 /-
   Line protocol for C07 (translation validation of one formatter run):
     fmt <hex input> <hex output> <hex format(output)>
-      -> valid sig=<n in>/<n out> com=<comments> empties=<e> seps=<s> angles=<a> colons=<c>
-               imports=<k:hex,...> opts=<hex,...>
-       | invalid:<first failing clause of the checker>    (not-idempotent when output ≠ format(output))
+      -> valid sig=<n in>/<n out> com=<comments> attr=<i:lead:trail,...> empties=<e> seps=<s>
+               angles=<a> colons=<c> oattr=<i:lead:trail,... of the output> imports=<k:hex,...> opts=<hex,...>
+       | invalid:<first failing clause of the checker>    (not-idempotent when output ≠ format(output);
+                                                           not-formatted:<clause> when isFormatted out fails)
     lexonly <hex input>
-      -> sig=<n> com=<k> empties=<e> seps=<s> angles=<a> colons=<c>
+      -> sig=<n> com=<k> attr=<i:lead:trail,...> empties=<e> seps=<s> angles=<a> colons=<c>
+  The driver accepts a run iff  validFormat inp out ∧ isFormatted out ∧ out2 = out.
   The facts after `valid` are derived from the INPUT by the lexer / role automaton / header
   canonicalisation model (only <n out> is read off the output); the harness prints the same
   facts read off protocompile's AST of the input and of the real formatter's output.
@@ -21,16 +23,49 @@ def hexOfBytes (bs : List Nat) : String :=
 
 def countRole (l : List (Token × Role)) (r : Role) : Nat := (l.filter (·.2 = r)).length
 
+/-- first failing clause of the checker / of the normal form (diagnostics only) -/
 def failing (inp out : Str) : String :=
-  let hi := headerOf inp
-  let ho := headerOf out
-  if !sameToks hi.syn ho.syn then "syntax"
-  else if !sameToks hi.pkg.toList ho.pkg.toList then "package"
-  else if !sameToks hi.rest ho.rest then "body"
-  else if !importsOK hi.imports ho.imports then "imports"
-  else if !optionsOK hi.options ho.options then "options"
-  else if !commentsOK (lex inp) (lex out) then "comments"
+  let di := decorate (lex inp)
+  let dout := decorate (lex out)
+  let si := (stmts (normD di)).map gapNorm
+  let so := (stmts dout).map gapNorm
+  if !dropsClean (annotateD di) then "comment-on-dropped-token"
+  else if !(ofCls .syn so == ofCls .syn si) then "syntax"
+  else if !(ofCls .pkg so == ofCls .pkg si) then "package"
+  else if !(ofCls .rest so == ofCls .rest si) then
+    (if (ofCls .rest so).map stmtText == (ofCls .rest si).map stmtText then "body-comments" else "body")
+  else if !importsOK (ofCls .imp si) (ofCls .imp so) then "imports"
+  else if !optionsOK (ofCls .opt si) (ofCls .opt so) then "options"
   else "?"
+
+def notFormatted (out : Str) : String :=
+  let ts := lex out
+  let ds := decorate ts
+  if !(roles (toks ds)).all (· = .keep) then "rewritable-token"
+  else if !((canon (parseHeader (stmts ds))).render == stmts ds) then "header-not-canonical"
+  else if !startsOK ts then "leading-whitespace"
+  else if !layoutOK ts then "layout"
+  else "?"
+
+/-- per-token comment attribution: index:leading:trailing for every token that owns a comment -/
+def attrSig (ds : List DTok) : String :=
+  let parts := ds.zipIdx.filterMap fun (d, i) =>
+    if d.lead.isEmpty && d.trail.isEmpty then none else some s!"{i}:{d.lead.length}:{d.trail.length}"
+  if parts.isEmpty then "-" else ",".intercalate parts
+
+def showKey (k : CKey) : String := " ".intercalate (k.map String.ofList)
+def showD (d : DTok) : String :=
+  (if d.lead.isEmpty then "" else "«L:" ++ "|".intercalate (d.lead.map showKey) ++ "»") ++ String.ofList d.tok.text ++
+  (if d.trail.isEmpty then "" else "«T:" ++ "|".intercalate (d.trail.map showKey) ++ "»")
+def showS (s : Stmt) : String := " ".intercalate (s.map showD)
+
+/-- diagnostics: the statements of the normalised input that are not (with their comments) in the output, and vice versa -/
+def dbg (inp out : Str) : String :=
+  let si := (stmts (normD (decorate (lex inp)))).map gapNorm
+  let so := (stmts (decorate (lex out))).map gapNorm
+  let a := si.filter (fun s => !so.contains s)
+  let b := so.filter (fun s => !si.contains s)
+  "IN-ONLY:  " ++ " ## ".intercalate (a.map showS) ++ "  OUT-ONLY: " ++ " ## ".intercalate (b.map showS)
 
 def handle : List String → String
   | ["lexonly", a] =>
@@ -38,25 +73,30 @@ def handle : List String → String
     | some i =>
       let ti := lex i.toList
       let si := sig ti
-      let roles := annotate si
-      s!"sig={si.length} com={(comments ti).length} empties={countRole roles .dropEmpty} seps={countRole roles .dropSep} angles={countRole roles .toOpenBrace + countRole roles .toCloseBrace} colons={countRole roles .colonAfter}"
+      let rs := annotate si
+      s!"sig={si.length} com={(comments ti).length} attr={attrSig (decorate ti)} empties={countRole rs .dropEmpty} seps={countRole rs .dropSep} angles={countRole rs .toOpenBrace + countRole rs .toCloseBrace} colons={countRole rs .colonAfter}"
     | none => "bad-op"
+  | ["dbg", a, b] =>
+    match hexDecode a, hexDecode b with
+    | some i, some o => dbg i.toList o.toList
+    | _, _ => "bad-op"
   | ["fmt", a, b, c] =>
     match hexDecode a, hexDecode b, hexDecode c with
     | some i, some o, some o2 =>
       let inp := i.toList
       let out := o.toList
       if o2 != o then "invalid:not-idempotent"
-      else if validFormat inp out then
+      else if !validFormat inp out then "invalid:" ++ failing inp out
+      else if !isFormatted out then "invalid:not-formatted:" ++ notFormatted out
+      else
         let ti := lex inp
         let si := sig ti
-        let roles := annotate si
-        let h := canon (headerOf inp)
+        let rs := annotate si
+        let h := canon (parseHeader (stmts (normD (decorate ti))))
         let imps := h.imports.map fun s =>
           (if importOrder s = 2 then "p" else if importOrder s = 1 then "w" else "n") ++ ":" ++ hexOfBytes (importName s)
         let opts := h.options.map fun s => enc (String.ofList (optionName s))
-        s!"valid sig={si.length}/{(sig (lex out)).length} com={(comments ti).length} empties={countRole roles .dropEmpty} seps={countRole roles .dropSep} angles={countRole roles .toOpenBrace + countRole roles .toCloseBrace} colons={countRole roles .colonAfter} imports={",".intercalate imps} opts={",".intercalate opts}"
-      else "invalid:" ++ failing inp out
+        s!"valid sig={si.length}/{(sig (lex out)).length} com={(comments ti).length} attr={attrSig (decorate ti)} empties={countRole rs .dropEmpty} seps={countRole rs .dropSep} angles={countRole rs .toOpenBrace + countRole rs .toCloseBrace} colons={countRole rs .colonAfter} oattr={attrSig (decorate (lex out))} imports={",".intercalate imps} opts={",".intercalate opts}"
     | _, _, _ => "bad-op"
   | _ => "bad-op"
 
